@@ -56,7 +56,7 @@ def main():
         L.append(["wsymm.%s.symm is wsymm.%s" % (nm, nm), g is not None and g.symm is g])
     out["window_keys"] = [list(k) for k in window.keys()]
     out["wsymm_keys"] = [list(k) for k in wsymm.keys()]
-    json.dump(out, sys.stdout)
+    json.dump(out, sys.stdout, default=str)
 
 
 if __name__ == "__main__":
